@@ -35,15 +35,19 @@ CONSTANTS Gen,        \* "none": exhaustive check; "trans": hist = last transiti
 
 Nil == "nil"
 COLL == "COLL"
-Obj == {"m1", "n1", "k1", "k2", "f1", "f2", "x1", "a1", "a2"}
-AliasObj == {"a1", "a2"}
-NameOf == [m1 |-> "m", n1 |-> "n", k1 |-> "K", k2 |-> "K", f1 |-> "f", f2 |-> "f", x1 |-> "x", a1 |-> "a", a2 |-> "b"]
-KindOf == [m1 |-> "module", n1 |-> "module", k1 |-> "class", k2 |-> "class", f1 |-> "function", f2 |-> "function",
-           x1 |-> "attribute", a1 |-> "alias", a2 |-> "alias"]
+\* m2 is a second module named "m" whose file is m.pyi (stubs of m1); a3 is an alias named "K" (it can
+\* occupy the key a class occupies elsewhere, so that `value.path == alias.path` refusals are reachable)
+Obj == {"m1", "m2", "n1", "k1", "k2", "f1", "f2", "x1", "a1", "a2", "a3"}
+AliasObj == {"a1", "a2", "a3"}
+NameOf == [m1 |-> "m", m2 |-> "m", n1 |-> "n", k1 |-> "K", k2 |-> "K", f1 |-> "f", f2 |-> "f", x1 |-> "x",
+           a1 |-> "a", a2 |-> "b", a3 |-> "K"]
+KindOf == [m1 |-> "module", m2 |-> "module", n1 |-> "module", k1 |-> "class", k2 |-> "class", f1 |-> "function",
+           f2 |-> "function", x1 |-> "attribute", a1 |-> "alias", a2 |-> "alias", a3 |-> "alias"]
+IsStub == [o \in Obj |-> o = "m2"]             \* filepath suffix .pyi
 Names == {"m", "n", "K", "f", "x", "a", "b"}
-Cont == {COLL, "m1", "n1", "k1", "k2"}          \* containers whose members dict is real state
-\* initial target paths the two aliases may be created with
-TargetPaths == [a1 : {<<"m", "K">>}, a2 : {<<"m", "K", "f">>, <<"m", "a">>, <<"n", "K">>}]
+Cont == {COLL, "m1", "m2", "n1", "k1", "k2"}    \* containers whose members dict is real state
+\* initial target paths the aliases may be created with
+TargetPaths == [a1 : {<<"m", "K">>}, a2 : {<<"m", "K", "f">>, <<"m", "a">>, <<"n", "K">>, <<"m">>}, a3 : {<<"m", "K">>}]
 
 CanHold(c, v) ==
   CASE c = COLL -> KindOf[v] = "module"
@@ -55,7 +59,8 @@ VARIABLES members,   \* [Cont -> [Names -> Obj \cup {Nil}]]
           parent,    \* [Obj -> Cont \cup AliasObj \cup {Nil}]   the parent attribute (stale values included)
           atarget,   \* [AliasObj -> Obj \cup {Nil}]             Alias._target
           atpath,    \* [AliasObj -> Seq(Names)]                 Alias.target_path
-          backrefs,  \* [Obj -> SUBSET (Seq(Names) \X AliasObj)] Object.aliases (path -> alias), non-alias objects only
+          backrefs,  \* [Obj -> Seq(Seq(Names) \X AliasObj)] Object.aliases: an insertion-ordered dict path -> alias
+                     \* (order matters: set_member iterates it), non-alias objects only
           outcome,   \* result class of the last call
           lastop,    \* the last call [name, root, key, value]
           hist       \* Gen only: sequence of [op, args, post-state]
@@ -107,7 +112,12 @@ Inside(o, c, fuel) ==     \* is container c inside object o (or o itself)?
   \/ o = c
   \/ fuel > 0 /\ o \in Cont /\ \E n \in Names : members[o][n] # Nil /\ Inside(members[o][n], c, fuel - 1)
 
-AddRef(refs, p, a) == {r \in refs : r[1] # p} \cup {<<p, a>>}     \* dict assignment aliases[p] = a
+\* dict assignment aliases[p] = a: an existing key keeps its position, a new key is appended
+AddRef(refs, p, a) ==
+  IF \E i \in 1..Len(refs) : refs[i][1] = p
+    THEN [i \in 1..Len(refs) |-> IF refs[i][1] = p THEN <<p, a>> ELSE refs[i]]
+    ELSE Append(refs, <<p, a>>)
+InRefs(refs, p, a) == \E i \in 1..Len(refs) : refs[i] = <<p, a>>
 
 \* ---- alias.target = v  (the setter), as a state function ---------------------------------------------
 \* returns the new <<atarget, atpath, backrefs, result>> given current ones; pv = path of v at call time
@@ -120,7 +130,7 @@ TargetSet(at, ap, br, a, v, pa, pv) ==
 \* ---- history ----------------------------------------------------------------------------------------------
 Snapshot(m, p, at, ap, br, out) ==
   [members |-> m, parent |-> p, atarget |-> at, atpath |-> ap,
-   backrefs |-> [o \in Obj |-> {[path |-> r[1], alias |-> r[2]] : r \in br[o]}], outcome |-> out]
+   backrefs |-> [o \in Obj |-> [i \in 1..Len(br[o]) |-> [path |-> br[o][i][1], alias |-> br[o][i][2]]]], outcome |-> out]
 Log(op, m, p, at, ap, br, out) ==
   /\ lastop' = op
   /\ hist' = CASE Gen = "hist" -> Append(hist, [op |-> op, post |-> Snapshot(m, p, at, ap, br, out)])
@@ -140,33 +150,65 @@ Detached(v) == ~IsMember(v)
 SimpleAlias(v) == IF KindOf[v] # "alias" THEN TRUE ELSE IF atarget[v] = Nil THEN TRUE ELSE KindOf[atarget[v]] # "alias"
 
 \* ---- set_member / __setitem__ ---------------------------------------------------------------------------
+\* merge_stubs(member, value) as far as the tree structure goes (annotations/docstrings: Merge.tla):
+\* members that exist only in the stubs module are moved into the regular module by set_member
+\* (their parent is re-set; they are NOT removed from the stubs module's dict), and a class present on
+\* both sides is merged the same way one level down.  Returns <<members, parent>>.
+MergeInto(m, p, keep, stubs) ==
+  LET top == {n \in Names : m[stubs][n] # Nil /\ m[keep][n] = Nil}
+      both == {n \in Names : IF m[stubs][n] = Nil \/ m[keep][n] = Nil THEN FALSE
+                                ELSE KindOf[m[stubs][n]] = "class" /\ KindOf[m[keep][n]] = "class"}
+      mA == [m EXCEPT ![keep] = [n \in Names |-> IF n \in top THEN m[stubs][n] ELSE @[n]]]
+      pA == [o \in Obj |-> IF \E n \in top : m[stubs][n] = o THEN keep ELSE p[o]]
+  IN IF both = {} THEN <<mA, pA>>
+     ELSE LET n == CHOOSE x \in both : TRUE            \* at most one class name ("K") in this universe
+              kk == m[keep][n]   ks == m[stubs][n]
+              mv == {n2 \in Names : m[ks][n2] # Nil /\ m[kk][n2] = Nil}
+          IN <<[mA EXCEPT ![kk] = [n2 \in Names |-> IF n2 \in mv THEN m[ks][n2] ELSE @[n2]]],
+               [o \in Obj |-> IF \E n2 \in mv : m[ks][n2] = o THEN kk ELSE pA[o]]>>
+\* the merge dereferences a runtime-side alias that has a stub counterpart (C19's defect) and re-parents
+\* moved aliases (back-reference update): both are kept out of this module's domain
+MergeLegal(keep, stubs) ==
+  /\ \A n \in Names : IF members[stubs][n] = Nil \/ members[keep][n] = Nil THEN TRUE
+                        ELSE KindOf[members[keep][n]] # "alias"
+  /\ \A n \in Names : IF members[stubs][n] = Nil THEN TRUE
+                        ELSE IF KindOf[members[stubs][n]] = "alias" THEN atarget[members[stubs][n]] = Nil
+                        ELSE IF KindOf[members[stubs][n]] # "class" THEN TRUE
+                        ELSE \A n2 \in Names : IF members[members[stubs][n]][n2] = Nil THEN TRUE
+                                                ELSE IF KindOf[members[members[stubs][n]][n2]] = "alias"
+                                                       THEN atarget[members[members[stubs][n]][n2]] = Nil ELSE TRUE
+
 \* single-part write into the real container c (after the key's prefix was walked)
 Place(op, c, v, producer) ==
   LET nm == NameOf[v]
       old == members[c][nm]
-      pv == Path(v)                       \* value.path BEFORE it is attached (what the code reads)
+      \* producer API, a module re-assigned over a module with another file: implicit stub merge; the
+      \* value that gets stored is the regular module (which may be the existing member itself)
+      merging == IF ~producer \/ old = Nil \/ c # COLL THEN FALSE
+                 ELSE KindOf[old] = "module" /\ KindOf[v] = "module" /\ IsStub[old] # IsStub[v]
+      keep == IF merging /\ IsStub[v] THEN old ELSE v
+      stubs == IF merging THEN (IF IsStub[v] THEN v ELSE old) ELSE Nil
+      mg == IF merging THEN MergeInto(members, parent, keep, stubs) ELSE <<members, parent>>
+      pv == IF keep = old THEN Path(keep) ELSE Path(v)    \* value.path BEFORE it is attached (what the code reads)
       \* producer API, replacement of a non-alias member: every alias listed on the old member is
-      \* re-targeted (CyclicAliasError suppressed).  Order = dictionary order; the result does not
-      \* depend on it because each alias is updated independently.
-      refs == IF producer /\ old # Nil /\ KindOf[old] # "alias" THEN backrefs[old] ELSE {}
-      als == {r[2] : r \in refs}
-      retarget(at, ap, br) ==
-         LET step(acc, a) == LET r == TargetSet(acc[1], acc[2], acc[3], a, v, Path(a), pv)
-                             IN <<r[1], r[2], r[3]>>
-             RECURSIVE fold(_, _)
-             fold(acc, S) == IF S = {} THEN acc ELSE LET a == CHOOSE x \in S : TRUE IN fold(step(acc, a), S \ {a})
-         IN fold(<<at, ap, br>>, als)
-      r1 == retarget(atarget, atpath, backrefs)
-      m2 == [members EXCEPT ![c][nm] = v]
-      p2 == IF c = COLL THEN parent ELSE [parent EXCEPT ![v] = c]
+      \* re-targeted onto the (merged) value, in dictionary order, CyclicAliasError suppressed per alias
+      refs == IF producer /\ old # Nil /\ (IF old = Nil THEN FALSE ELSE KindOf[old] # "alias") THEN backrefs[old] ELSE <<>>
+      RECURSIVE fold(_, _)
+      fold(acc, i) == IF i > Len(refs) THEN acc
+                      ELSE LET a == refs[i][2]
+                               r == TargetSet(acc[1], acc[2], acc[3], a, keep, Path(a), pv)
+                           IN fold(<<r[1], r[2], r[3]>>, i + 1)
+      r1 == fold(<<atarget, atpath, backrefs>>, 1)
+      m2 == [mg[1] EXCEPT ![c][nm] = keep]
+      p2 == IF c = COLL THEN mg[2] ELSE [mg[2] EXCEPT ![v] = c]
       \* Alias.parent setter -> _update_target_aliases (errors suppressed); the new path uses p2
-      newpath == IF c = COLL \/ p2[c] = Nil THEN (IF c = COLL THEN <<nm>> ELSE <<NameOf[c], nm>>)
-                 ELSE PathOf(c, 5) \o <<nm>>
+      newpath == IF c = COLL THEN <<nm>> ELSE IF p2[c] = Nil THEN <<NameOf[c], nm>> ELSE PathOf(c, 5) \o <<nm>>
       fin == IF KindOf[v] = "alias" THEN FinalOf(atarget[v], 3) ELSE Nil
       br2 == IF KindOf[v] = "alias" /\ c # COLL /\ fin # Nil
                THEN [r1[3] EXCEPT ![fin] = AddRef(@, newpath, v)] ELSE r1[3]
   IN \* re-targeting onto an unresolved alias dereferences it (value.aliases): not a legal value here
-     /\ (IF als # {} /\ KindOf[v] = "alias" THEN atarget[v] # Nil ELSE TRUE)
+     /\ (IF Len(refs) > 0 /\ KindOf[v] = "alias" THEN atarget[v] # Nil ELSE TRUE)
+     /\ (IF merging THEN MergeLegal(keep, stubs) ELSE TRUE)
      /\ members' = m2 /\ parent' = p2 /\ atarget' = r1[1] /\ atpath' = r1[2] /\ backrefs' = br2
      /\ outcome' = "ok"
      /\ Log(op, m2, p2, r1[1], r1[2], br2, "ok")
@@ -256,12 +298,20 @@ EmptyMembers == [c \in Cont |-> [n \in Names |-> Nil]]
 SeedMembers == [EmptyMembers EXCEPT ![COLL]["m"] = "m1", !["m1"]["K"] = "k1", !["m1"]["a"] = "a1", !["k1"]["f"] = "f1"]
 SeedParent == [[o \in Obj |-> Nil] EXCEPT !["k1"] = "m1", !["a1"] = "m1", !["f1"] = "k1"]
 
+\* a third tree where k1 already has two resolved aliases, registered in this order: n.K (a3), m.a (a1)
+\*   COLL{m: m1, n: n1}   m1{K: k1, a: a1 -> k1}   n1{K: a3 -> k1}   k1{f: f1}
+Seed3Members == [SeedMembers EXCEPT ![COLL]["n"] = "n1", !["n1"]["K"] = "a3"]
+Seed3Parent == [SeedParent EXCEPT !["a3"] = "n1"]
+
 Init ==
-  /\ \/ members = EmptyMembers /\ parent = [o \in Obj |-> Nil]
-     \/ members = SeedMembers /\ parent = SeedParent
-  /\ atarget = [a \in AliasObj |-> Nil]
+  /\ \/ members = EmptyMembers /\ parent = [o \in Obj |-> Nil] /\ atarget = [a \in AliasObj |-> Nil]
+        /\ backrefs = [o \in Obj |-> <<>>]
+     \/ members = SeedMembers /\ parent = SeedParent /\ atarget = [a \in AliasObj |-> Nil]
+        /\ backrefs = [o \in Obj |-> <<>>]
+     \/ members = Seed3Members /\ parent = Seed3Parent
+        /\ atarget = [a \in AliasObj |-> IF a \in {"a1", "a3"} THEN "k1" ELSE Nil]
+        /\ backrefs = [o \in Obj |-> IF o = "k1" THEN << <<<<"n", "K">>, "a3">>, <<<<"m", "a">>, "a1">> >> ELSE <<>>]
   /\ atpath \in TargetPaths
-  /\ backrefs = [o \in Obj |-> {}]
   /\ outcome = "ok" /\ lastop = [name |-> "init", root |-> Nil, key |-> <<>>, value |-> Nil]
   /\ hist = IF Gen = "hist" THEN <<[op |-> [name |-> "init", root |-> Nil, key |-> <<>>, value |-> Nil],
                                     post |-> Snapshot(members, parent, atarget, atpath, backrefs, "ok")]>> ELSE <<>>
@@ -275,9 +325,10 @@ TreeView == treevars
 DepthBound == IF Gen = "hist" THEN Len(hist) <= MaxDepth ELSE TLCGet("level") <= MaxDepth
 
 \* ---- the properties of C16 ------------------------------------------------------------------------------
-\* I1  every member's parent is its container (collection members have no parent requirement)
+\* I1  every member's parent is its container, for containers in the tree (collection members have no
+\*     parent requirement; a stubs module that was merged away keeps its old dict and is not in the tree)
 I1_ParentIsContainer ==
-  \A c \in Cont \ {COLL}, n \in Names : members[c][n] # Nil => parent[members[c][n]] = c
+  \A c \in Cont \ {COLL}, n \in Names : (members[c][n] # Nil /\ Attached(c)) => parent[members[c][n]] = c
 \* I2  every attached object is retrievable from the collection by its own path
 I2_RetrievableByPath ==
   \A o \in Obj : Attached(o) => LET w == Lookup(COLL, Path(o)) IN w.err = "ok" /\ w.obj = o /\ ~w.via
@@ -289,21 +340,30 @@ I4_DeletedIsGone ==
   \A c \in Cont, n \in Names : members[c][n] = Nil => Lookup(c, <<n>>).err = "KeyError"
 \* I6  every resolved, attached alias is listed among its final target's aliases under its current path
 I6_BackrefListed ==
-  \A a \in AliasObj : (Attached(a) /\ atarget[a] # Nil /\ Final(a) # Nil) => <<Path(a), a>> \in backrefs[Final(a)]
+  \A a \in AliasObj : (Attached(a) /\ atarget[a] # Nil /\ Final(a) # Nil) => InRefs(backrefs[Final(a)], Path(a), a)
 \* I7  an alias never targets itself (directly or through the other alias)
 I7_NoSelfTarget == \A a \in AliasObj : atarget[a] # a /\ Final(a) # a
-\* I5  (action property) replacing o by o' through set_member re-targets every attached alias that
-\*     pointed at o, unless that would make the alias target itself (same object or same path)
+\* I5  (action property) after set_member stored a value at a key that held a non-alias member o, every
+\*     attached alias that pointed at o points at the value now stored there (the replacement - or o
+\*     itself when the implicit stub merge kept it), unless that would make the alias target itself
+\*     (same object or same path)
 I5_FollowReplacement ==
-  [][lastop'.name = "set_member" =>
+  [][(lastop'.name = "set_member" /\ outcome' = "ok") =>
        \A c \in Cont, n \in Names, a \in AliasObj :
-         LET old == members[c][n]  new == members'[c][n] IN
-         ( /\ old # Nil /\ new # Nil /\ new # old /\ KindOf[old] # "alias"
-           /\ Attached(a) /\ Final(a) = old /\ <<Path(a), a>> \in backrefs[old] )
+         LET old == members[c][n]  new == members'[c][n]  val == lastop'.value IN
+         ( /\ old # Nil /\ new # Nil
+           /\ (IF old = Nil THEN FALSE ELSE KindOf[old] # "alias")
+           /\ NameOf[val] = n /\ val # old
+           \* the call wrote to this very key: the stored value changed, or it is the stub-merge case
+           \* (a stubs module set over its regular module at the collection: the regular module stays)
+           /\ \/ new # old
+              \/ (c = COLL /\ lastop'.root = COLL /\ lastop'.key = <<n>> /\ KindOf[val] = "module")
+           /\ Attached(a) /\ Final(a) = old /\ InRefs(backrefs[old], Path(a), a) )
          => (atarget'[a] = new \/ a = new \/ Path(new) = Path(a))]_vars
 \* members dictionaries hold objects under their own name only, and an object is a member of at most one container
 WellKeyed == \A c \in Cont, n \in Names : members[c][n] # Nil => NameOf[members[c][n]] = n
-SingleContainer == \A o \in Obj : Cardinality({c \in Cont : members[c][NameOf[o]] = o}) <= 1
+\* (a stubs module that was merged away keeps its dict: only containers still in the tree count)
+SingleContainer == \A o \in Obj : Cardinality({c \in Cont : members[c][NameOf[o]] = o /\ (c = COLL \/ Attached(c))}) <= 1
 
 \* behaviours for replay: printed when the history reaches its bound (exhaustive gen and -simulate alike)
 EmitHist ==
